@@ -55,7 +55,11 @@ Definition pf_fmt (f : float) : string :=
       ((if s then "-" else "") ++ str_of_Z (q / 1000000) ++ "." ++ pad6 (q mod 1000000))%string
   end.
 
-Definition pow10f (n : nat) : float := pf_of_Z (10 ^ Z.of_nat n).
+(* 10^n as a float, exact for n <= 22; 10^n itself does not fit an int64 beyond n = 18, so the
+   larger powers are the (exact) product of two exactly representable factors *)
+Definition pow10f (n : nat) : float :=
+  if (n <=? 18)%nat then pf_of_Z (10 ^ Z.of_nat n)
+  else PrimFloat.mul (pf_of_Z (10 ^ 18)) (pf_of_Z (10 ^ Z.of_nat (n - 18))).
 
 (* ---- decimal float syntax *)
 Fixpoint take_digits (s : string) (acc : Z) (n : nat) : Z * nat * string :=
